@@ -388,3 +388,34 @@ func VerifPullRace() {
 	symapi.Assert(live == 1, "exactly-one-pulled-stream-survives")
 	symapi.Reach("end")
 }
+
+// VerifInfosPaging (C05): the paged stream listing: for any set of registered streams, any
+// page token (a listed path, the path of a stream that has gone since the previous page,
+// anything else) and page size, the page is exactly the first `pagesize` registered paths
+// greater than the token, in order, and the total is the number of registered streams - so
+// walking the pages lists every live stream once, also when the token's stream has left.
+func VerifInfosPaging() {
+	paths := []string{"/seed/a", "/seed/b", "/seed/c", "/seed/d"}
+	var have []string
+	for i, p := range paths {
+		if symapi.Bool("registered" + string(rune('0'+i))) {
+			Regist(verifStream(p))
+			have = append(have, p)
+		}
+	}
+	token := []string{"", "/seed/a", "/seed/b", "/seed/bb", "/seed/c", "/seed/d", "/seed/e", "/"}[symapi.Choose("token", 8)]
+	size := symapi.IntRange("pagesize", 1, 3)
+	total, page := Infos(token, size, false)
+	symapi.Assert(total == len(have), "total-is-the-number-of-registered-streams")
+	var want []string
+	for _, p := range have {
+		if p > token && len(want) < size {
+			want = append(want, p)
+		}
+	}
+	symapi.Assert(len(page) == len(want), "page-has-the-next-registered-streams")
+	for i := 0; i < len(want) && i < len(page); i++ {
+		symapi.Assert(page[i].Path == want[i], "page-lists-the-streams-after-the-token-in-order")
+	}
+	symapi.Reach("end")
+}
